@@ -146,6 +146,33 @@ type aevent struct {
 	guards []string
 	held   []string // mutex fields held at that moment
 	list   *alist   // deliver: the list the item was taken from
+	// filled for every event, read only by the generators that track field accesses (gen_sender)
+	heldW []string   // mutex fields held in write mode (Lock, not RLock) at that moment
+	path  []pathElem // the undecided branches the event lies in (see pathElem)
+	async bool       // recorded inside a `go` statement
+}
+
+// pathElem names one arm of an undecided branch. The two arms of one `if` share the id; every other branch
+// (loop body, switch clause, callback) has its own. After an arm that RETURNS, the rest of the frame lies in the
+// other arm: `if a { return }; x` records x under (id, 1) exactly like `if a { return } else { x }`.
+// An event A is executed whenever a later event B is (A dominates B) iff A's path is a prefix of B's path.
+type pathElem struct{ id, arm int }
+
+// trackCfg switches on the field-access events (used by gen_sender, off for gen_eventbus: nil):
+//
+//	atomicadd  name=field                 atomic.AddXxx(&recv.F, …) or recv.F.Add(…) with F of an atomic type
+//	connwrite  name=callee                any call of a method named writeMethod
+//	mapread / mapstore / mapdelete  name=field   access to a receiver field of map type (op: load/index/range/len)
+//	fieldload / fieldstore  name=field    plain access to a receiver field of integer type
+//	fieldcall  name=field op=method       recv.F.M(…) on any other field
+//	overrelease name=mutex                an exit path that unlocks what an unlock it deferred unlocks again
+//
+// and makes a frame with a conditional return yield an unknown value.
+type trackCfg struct {
+	maps        map[string]bool
+	ints        map[string]bool
+	atomics     map[string]bool
+	writeMethod string
 }
 
 type interp struct {
@@ -165,6 +192,35 @@ type interp struct {
 	peersField string // DeviceLocal: the map of connected remote devices
 	notes      []string
 	pure       map[string]bool // external calls that neither block nor call back into the package
+	// additions for the field-access facts (gen_sender)
+	track      *trackCfg
+	heldW      map[string]int // write-mode holds
+	path       []pathElem
+	nextBranch int
+	pendIf     *pathElem // set by an `if` for the arm that branch() is about to run
+	quiet      int       // > 0: the base of a store / delete / atomic operand is being evaluated: no load events
+	// additions for the leaf critical sections of additional mutexes (gen_eventbus); inert while watch is nil
+	watch     map[string]bool   // receiver fields whose every access is recorded as an `faccess` event (name=field, op=load/store)
+	watchSeen map[ast.Node]bool // the selector expressions recv.F (F any field) the interpreter has evaluated, by node
+	contElems map[pathElem]bool // path elements that stand for "the rest of the frame after an arm that returned"
+}
+
+// watchAccess records an access to field f of the receiver through the selector expression n.
+func (in *interp) watchAccess(n ast.Node, f, op string) {
+	if in.watchSeen != nil {
+		in.watchSeen[n] = true
+	}
+	if in.watch[f] {
+		in.emit(aevent{kind: "faccess", name: f, op: op})
+	}
+}
+
+// watchEscape: a watched field is bound to a local name, returned or handed on — later uses of the alias would not
+// be recorded as accesses, so the binding itself is recorded as something the interpreter cannot account for.
+func (in *interp) watchEscape(v aval, how string) {
+	if in.watch != nil && v.kind == "field" && in.watch[v.s] {
+		in.emit(aevent{kind: "other", name: "field " + v.s + " " + how + " (alias of watched state)"})
+	}
 }
 
 func (in *interp) note(format string, a ...any) {
@@ -187,7 +243,28 @@ func (in *interp) emit(e aevent) {
 	e.late = in.afterExit > 0
 	e.guards = append([]string{}, in.guards...)
 	e.held = in.heldNames()
+	for k, n := range in.heldW {
+		if n > 0 {
+			e.heldW = append(e.heldW, k)
+		}
+	}
+	sort.Strings(e.heldW)
+	e.path = append([]pathElem{}, in.path...)
+	e.async = in.async > 0
 	in.ev = append(in.ev, e)
+}
+
+// pathPrefix: a is a prefix of b.
+func pathPrefix(a, b []pathElem) bool {
+	if len(a) > len(b) {
+		return false
+	}
+	for i := range a {
+		if a[i] != b[i] {
+			return false
+		}
+	}
+	return true
 }
 
 type frame struct {
@@ -197,6 +274,7 @@ type frame struct {
 	defers      []func()
 	recv        string // receiver type of the method being interpreted ("" for functions)
 	rname       string
+	condReturn  bool // a return statement was met on an undecided path of this frame
 }
 
 type signal int
@@ -241,8 +319,13 @@ func (in *interp) runBody(fr *frame, body *ast.BlockStmt) aval {
 		fr.entryHeld[k] = n
 	}
 	condBefore, lateBefore := in.unknown, in.afterExit
+	pathBefore := len(in.path)
 	_, ret := in.block(fr, body.List)
 	in.unknown, in.afterExit = condBefore, lateBefore // an exit path only taints the rest of its own frame; deferred calls run on every way out
+	in.path = in.path[:pathBefore]
+	if in.track != nil && fr.condReturn {
+		ret = unknownVal // the value of the last return statement is not the value of every way out
+	}
 	for i := len(fr.defers) - 1; i >= 0; i-- {
 		fr.defers[i]()
 	}
@@ -268,13 +351,44 @@ func (in *interp) branch(fr *frame, list []ast.Stmt, guard string) (signal, aval
 	for k, n := range in.held {
 		heldBefore[k] = n
 	}
+	heldWBefore := map[string]int{}
+	for k, n := range in.heldW {
+		heldWBefore[k] = n
+	}
+	tag := pathElem{id: in.nextBranch + 1}
+	if in.pendIf != nil {
+		tag, in.pendIf = *in.pendIf, nil
+	} else {
+		in.nextBranch++
+	}
+	pathBefore := len(in.path)
+	in.path = append(in.path, tag)
 	first := len(in.ev)
 	sig, v := in.block(fr, list)
 	if guard != "" {
 		in.guards = in.guards[:len(in.guards)-1]
 	}
 	in.unknown--
+	if sig == sigReturn && in.track != nil {
+		var ks []string
+		for k := range in.held {
+			ks = append(ks, k)
+		}
+		sort.Strings(ks)
+		for _, k := range ks {
+			if in.held[k]-fr.deferUnlock[k] < fr.entryHeld[k] {
+				in.emit(aevent{kind: "overrelease", name: k})
+			}
+		}
+	}
+	in.path = in.path[:pathBefore]
 	if sig == sigReturn {
+		fr.condReturn = true
+		in.heldW = heldWBefore
+		in.path = append(in.path, pathElem{tag.id, 1 - tag.arm}) // until the enclosing branch / the frame ends
+		if in.contElems != nil {
+			in.contElems[pathElem{tag.id, 1 - tag.arm}] = true
+		}
 		// an EXIT PATH: the function returns here. Whatever it still holds beyond what it held on entry must be
 		// released by an unlock it has deferred; its own lock operations do not belong to the main path
 		for k, n := range in.held {
@@ -312,6 +426,7 @@ func (in *interp) stmt(fr *frame, st ast.Stmt) (signal, aval) {
 			if id, ok := l.(*ast.Ident); ok {
 				if id.Name != "_" {
 					fr.env[id.Name] = v
+					in.watchEscape(v, "bound to "+id.Name)
 				}
 			} else {
 				in.lvalue(fr, l)
@@ -329,6 +444,7 @@ func (in *interp) stmt(fr *frame, st ast.Stmt) (signal, aval) {
 							v = aval{kind: "list", list: &alist{origin: "fresh"}} // var xs []T
 						}
 						fr.env[n.Name] = v
+						in.watchEscape(v, "bound to "+n.Name)
 					}
 				}
 			}
@@ -340,6 +456,33 @@ func (in *interp) stmt(fr *frame, st ast.Stmt) (signal, aval) {
 			if b := in.eval(fr, se.X); b.kind == "field" && in.mutexes[b.s] && !cond {
 				fr.deferUnlock[b.s]++
 			}
+		}
+		directUnlock := false // defer x.Unlock(): counted above
+		if se, ok := call.Fun.(*ast.SelectorExpr); ok {
+			directUnlock = isUnlockName(se.Sel.Name)
+		}
+		if in.track != nil && !cond && !directUnlock {
+			// defer func() { …; recv.mu.Unlock() }() or defer recv.unlockHelper(): which mutexes the deferred call
+			// releases is found by running it on the side; the state is put back afterwards
+			nEv, nNotes, nPath, nGuards := len(in.ev), len(in.notes), len(in.path), len(in.guards)
+			unknown, afterExit, async, depth, nextBranch := in.unknown, in.afterExit, in.async, in.depth, in.nextBranch
+			held, heldW := map[string]int{}, map[string]int{}
+			for k, n := range in.held {
+				held[k] = n
+			}
+			for k, n := range in.heldW {
+				heldW[k] = n
+			}
+			condReturn := fr.condReturn
+			in.evalCall(fr, call, false)
+			for k := range in.mutexes {
+				if d := held[k] - in.held[k]; d > 0 {
+					fr.deferUnlock[k] += d
+				}
+			}
+			in.ev, in.notes, in.path, in.guards = in.ev[:nEv], in.notes[:nNotes], in.path[:nPath], in.guards[:nGuards]
+			in.unknown, in.afterExit, in.async, in.depth, in.nextBranch = unknown, afterExit, async, depth, nextBranch
+			in.held, in.heldW, fr.condReturn = held, heldW, condReturn
 		}
 		fr.defers = append(fr.defers, func() {
 			if cond {
@@ -356,6 +499,7 @@ func (in *interp) stmt(fr *frame, st ast.Stmt) (signal, aval) {
 		v := unknownVal
 		for i, r := range x.Results {
 			rv := in.eval(fr, r)
+			in.watchEscape(rv, "returned")
 			if i == 0 {
 				v = rv
 			}
@@ -391,7 +535,11 @@ func (in *interp) stmt(fr *frame, st ast.Stmt) (signal, aval) {
 			if c.kind == "sym" {
 				g, ng = c.s, "!"+c.s
 			}
+			in.nextBranch++
+			ifID := in.nextBranch
+			in.pendIf = &pathElem{ifID, 0}
 			s1, v1 := in.branch(fr, x.Body.List, g)
+			in.pendIf = &pathElem{ifID, 1}
 			s2, _ := in.branch(fr, els, ng)
 			if s1 == sigContinue && s2 == sigContinue || s1 == sigBreak && s2 == sigBreak {
 				return s1, v1
@@ -448,6 +596,7 @@ func (in *interp) stmt(fr *frame, st ast.Stmt) (signal, aval) {
 		}
 	case *ast.RangeStmt:
 		src := in.evalRead(fr, x.X, "range")
+		in.trackMapRead(src, "range")
 		bind := func(v aval) {
 			if id, ok := x.Value.(*ast.Ident); ok && id.Name != "_" {
 				fr.env[id.Name] = v
@@ -543,10 +692,54 @@ func (in *interp) lvalue(fr *frame, e ast.Expr) {
 		if b := in.eval(fr, se.X); b.kind == "recv" && se.Sel.Name == in.listField {
 			in.emit(aevent{kind: "hwrite", name: se.Sel.Name})
 			return
+		} else if b.kind == "recv" && (in.watch != nil || in.watchSeen != nil) {
+			in.watchAccess(se, se.Sel.Name, "store")
+		} else if b.kind == "recv" && in.track != nil {
+			switch {
+			case in.track.maps[se.Sel.Name]:
+				in.emit(aevent{kind: "mapstore", name: se.Sel.Name, op: "replace"})
+			case in.track.ints[se.Sel.Name]:
+				in.emit(aevent{kind: "fieldstore", name: se.Sel.Name})
+			}
+		}
+		return
+	}
+	if ix, ok := e.(*ast.IndexExpr); ok && in.track != nil {
+		// m[k] = v with m a tracked map of the receiver (directly or through a local alias): a store, not a read
+		in.eval(fr, ix.Index)
+		in.quiet++
+		b := in.eval(fr, ix.X)
+		in.quiet--
+		if b.kind == "field" && in.track.maps[b.s] {
+			in.emit(aevent{kind: "mapstore", name: b.s, op: "index"})
 		}
 		return
 	}
 	in.eval(fr, e)
+}
+
+// trackMapRead records a read of a tracked map the value v stands for.
+func (in *interp) trackMapRead(v aval, op string) {
+	if in.track != nil && v.kind == "field" && in.track.maps[v.s] {
+		in.emit(aevent{kind: "mapread", name: v.s, op: op})
+	}
+}
+
+// trackCall records what a method call on some value means for the tracked facts (before the call is recorded as
+// `other`): the write to the connection, an atomic add on a field of an atomic type, a call on a field.
+func (in *interp) trackCall(base aval, name, callee string) {
+	if in.track == nil {
+		return
+	}
+	if name == in.track.writeMethod {
+		in.emit(aevent{kind: "connwrite", name: callee})
+	}
+	if base.kind == "field" {
+		if in.track.atomics[base.s] && name == "Add" {
+			in.emit(aevent{kind: "atomicadd", name: base.s})
+		}
+		in.emit(aevent{kind: "fieldcall", name: base.s, op: name})
+	}
 }
 
 func (in *interp) isListField(fr *frame, e ast.Expr) bool {
@@ -601,6 +794,17 @@ func (in *interp) eval(fr *frame, e ast.Expr) aval {
 		b := in.eval(fr, x.X)
 		switch b.kind {
 		case "recv":
+			if in.watch != nil || in.watchSeen != nil {
+				in.watchAccess(x, x.Sel.Name, "load")
+			}
+			if in.track != nil && in.quiet == 0 {
+				switch {
+				case in.track.maps[x.Sel.Name]:
+					in.emit(aevent{kind: "mapread", name: x.Sel.Name, op: "load"})
+				case in.track.ints[x.Sel.Name]:
+					in.emit(aevent{kind: "fieldload", name: x.Sel.Name})
+				}
+			}
 			return aval{kind: "field", s: x.Sel.Name}
 		case "item":
 			return aval{kind: "itemfield", s: b.s, list: b.list, cs: []string{x.Sel.Name}}
@@ -695,7 +899,12 @@ func (in *interp) eval(fr *frame, e ast.Expr) aval {
 				return aval{kind: "item", s: ix.s, list: b.list} // list[i] inside `for i := range list`
 			}
 		}
-		return in.evalRead(fr, x.X, "other")
+		bv := in.evalRead(fr, x.X, "other")
+		in.trackMapRead(bv, "index")
+		if in.watch != nil && bv.kind == "field" && in.watch[bv.s] {
+			return unknownVal // an element of a watched field, not the field
+		}
+		return bv
 	case *ast.SliceExpr:
 		return in.evalRead(fr, x.X, "other")
 	case *ast.TypeAssertExpr:
@@ -738,6 +947,8 @@ func (in *interp) callbacks(fr *frame, vs []aval) {
 	for _, v := range vs {
 		if v.kind == "func" {
 			in.unknown++
+			in.nextBranch++
+			in.path = append(in.path, pathElem{id: in.nextBranch})
 			sub := &frame{env: map[string]aval{}, recv: fr.recv, rname: fr.rname}
 			for k, x := range fr.env {
 				sub.env[k] = x
@@ -748,6 +959,7 @@ func (in *interp) callbacks(fr *frame, vs []aval) {
 				}
 			}
 			in.runBody(sub, v.lit.Body)
+			in.path = in.path[:len(in.path)-1]
 			in.unknown--
 		}
 	}
@@ -777,7 +989,7 @@ func (in *interp) evalCall(fr *frame, c *ast.CallExpr, isGo bool) aval {
 				if se, ok := c.Args[0].(*ast.SelectorExpr); ok && se.Sel.Name == in.peersField && in.eval(fr, se.X).kind == "recv" {
 					return aval{kind: "lenpeers"}
 				}
-				in.evalRead(fr, c.Args[0], "len")
+				in.trackMapRead(in.evalRead(fr, c.Args[0], "len"), "len")
 			}
 			return unknownVal
 		case "make":
@@ -824,6 +1036,16 @@ func (in *interp) evalCall(fr *frame, c *ast.CallExpr, isGo bool) aval {
 			}
 			return unknownVal
 		case "delete", "cap", "new", "panic", "print", "println", "min", "max", "clear":
+			if in.track != nil && (fun.Name == "delete" || fun.Name == "clear") && len(c.Args) >= 1 {
+				in.quiet++
+				b := in.eval(fr, c.Args[0])
+				in.quiet--
+				in.evalArgs(fr, c.Args[1:])
+				if b.kind == "field" && in.track.maps[b.s] {
+					in.emit(aevent{kind: "mapdelete", name: b.s, op: fun.Name})
+				}
+				return unknownVal
+			}
 			in.evalArgs(fr, c.Args)
 			return unknownVal
 		}
@@ -858,9 +1080,16 @@ func (in *interp) evalCall(fr *frame, c *ast.CallExpr, isGo bool) aval {
 					for i, a := range c.Args {
 						if i == 0 && strings.HasPrefix(full, "slices.") {
 							vs = append(vs, in.evalRead(fr, a, "other"))
+						} else if i == 0 && in.track != nil && id.Name == "atomic" {
+							in.quiet++ // the operand of an atomic operation is not a plain load
+							vs = append(vs, in.eval(fr, a))
+							in.quiet--
 						} else {
 							vs = append(vs, in.eval(fr, a))
 						}
+					}
+					if in.track != nil && id.Name == "atomic" && strings.HasPrefix(name, "Add") && len(vs) > 0 && vs[0].kind == "field" {
+						in.emit(aevent{kind: "atomicadd", name: vs[0].s})
 					}
 					if !in.pure[full] && !strings.HasPrefix(full, "slices.") {
 						k := "other"
@@ -902,7 +1131,14 @@ func (in *interp) evalCall(fr *frame, c *ast.CallExpr, isGo bool) aval {
 			in.emit(ev)
 			return unknownVal
 		}
+		_, directSel := fun.X.(*ast.SelectorExpr)
+		if in.track != nil && directSel {
+			in.quiet++ // recv.field.Op(...) is a call on the field, recorded as such, not a load of it
+		}
 		base := in.eval(fr, fun.X)
+		if in.track != nil && directSel {
+			in.quiet--
+		}
 		switch base.kind {
 		case "field": // recv.field.Op(...)
 			vs := in.evalArgs(fr, c.Args)
@@ -910,8 +1146,14 @@ func (in *interp) evalCall(fr *frame, c *ast.CallExpr, isGo bool) aval {
 				if name == "Lock" || name == "RLock" {
 					in.emit(aevent{kind: "lock", name: base.s, op: name})
 					in.held[base.s]++
+					if name == "Lock" {
+						in.heldW[base.s]++
+					}
 				} else {
 					in.held[base.s]--
+					if name == "Unlock" {
+						in.heldW[base.s]--
+					}
 					in.emit(aevent{kind: "lock", name: base.s, op: name})
 				}
 				return unknownVal
@@ -920,6 +1162,7 @@ func (in *interp) evalCall(fr *frame, c *ast.CallExpr, isGo bool) aval {
 			if name == "Wait" || name == "Lock" || name == "RLock" || name == "Acquire" {
 				k = "block"
 			}
+			in.trackCall(base, name, "recv."+base.s+"."+name)
 			in.emit(aevent{kind: k, name: "recv." + base.s + "." + name, op: mode})
 			in.callbacks(fr, vs)
 			return unknownVal
@@ -937,6 +1180,7 @@ func (in *interp) evalCall(fr *frame, c *ast.CallExpr, isGo bool) aval {
 		if name == "Wait" {
 			k = "block"
 		}
+		in.trackCall(base, name, exprString(fun))
 		in.emit(aevent{kind: k, name: exprString(fun), op: mode})
 		in.callbacks(fr, vs)
 		return unknownVal
@@ -990,6 +1234,8 @@ func (in *interp) inline(fr *frame, name string, fd *ast.FuncDecl, recv aval, ar
 	return in.call(fd, recv, vs)
 }
 
+func isUnlockName(n string) bool { return n == "Unlock" || n == "RUnlock" }
+
 func isBasicType(n string) bool {
 	switch n {
 	case "string", "int", "uint", "int64", "uint64", "float64", "bool", "byte", "rune", "int32", "uint32", "uint16", "uint8":
@@ -999,7 +1245,7 @@ func isBasicType(n string) bool {
 }
 
 func newInterp(p *pkgInfo, mutexes map[string]bool, listField string, order int) *interp {
-	return &interp{pkg: p, held: map[string]int{}, itemOrder: order, mutexes: mutexes, listField: listField,
+	return &interp{pkg: p, held: map[string]int{}, heldW: map[string]int{}, itemOrder: order, mutexes: mutexes, listField: listField,
 		levelConst: []string{"api.EventHandlerLevelCore", "api.EventHandlerLevelApplication"},
 		pure:       map[string]bool{"reflect.DeepEqual": true, "reflect.ValueOf": true, "fmt.Sprintf": true, "errors.New": true}}
 }
